@@ -62,3 +62,171 @@ func VerifH_C20_bf16_monotone() {
 	rb := Float32ToBFloat16(fb).ToFloat32()
 	vrt.Assert(ra <= rb, "bf16-monotone")
 }
+
+// ---- FP8 ----
+
+func verifIsNaN32(f float32) bool { return f != f }
+
+// all 256 codes: decode -> encode is the identity (NaN codes stay NaN). Sign and exponent field are forked
+// (concrete per path), the mantissa field is symbolic.
+func VerifH_C20_e4m3_codes() {
+	code := uint8(vrt.Choice(32))<<3 | vrt.U8()&0x07
+	f := FP8E4M3(code).ToFloat32()
+	back := uint8(Float32ToFP8E4M3(f))
+	if verifIsNaN32(f) {
+		vrt.Assert(verifIsNaN32(FP8E4M3(back).ToFloat32()), "e4m3-nan-code-stays-nan")
+		return
+	}
+	vrt.Assert(back == code, "e4m3-code-roundtrip")
+}
+
+func VerifH_C20_e5m2_codes() {
+	code := uint8(vrt.Choice(64))<<2 | vrt.U8()&0x03
+	f := FP8E5M2(code).ToFloat32()
+	back := uint8(Float32ToFP8E5M2(f))
+	if verifIsNaN32(f) {
+		vrt.Assert(verifIsNaN32(FP8E5M2(back).ToFloat32()), "e5m2-nan-code-stays-nan")
+		return
+	}
+	vrt.Assert(back == code, "e5m2-code-roundtrip")
+}
+
+// verifFP8Encode checks one float32 -> FP8 conversion against the decoder's own table of
+// representable values (all 256 codes decoded concretely): NaN<->NaN, nearest with ties to even.
+func verifFP8Encode(prefix string, bits uint32, enc func(float32) uint8, dec func(uint8) float32, mantBits uint) {
+	var tab [256]float32
+	for i := 0; i < 256; i++ {
+		tab[i] = dec(uint8(i))
+	}
+	f := math.Float32frombits(bits)
+	// fork over the feasible result codes (the solver enumerates them; at most 2^mantBits+2 per exponent)
+	code := uint8(vrt.Concretize(uint64(enc(f)), 24))
+	r := tab[code]
+	if verifIsNaN32(f) {
+		vrt.Assert(verifIsNaN32(r), prefix+"-nan-stays-nan")
+		return
+	}
+	vrt.Assert(!verifIsNaN32(r), prefix+"-number-not-nan")
+	if verifIsNaN32(r) {
+		return
+	}
+	// sign is kept
+	vrt.Assert(code>>7 == uint8(bits>>31), prefix+"-sign-kept")
+	mag := code & 0x7F
+	maxFinite := uint8(0x7F) - (1 << mantBits) // largest code below the exp=all-ones block
+	a := math.Abs(float64(f))
+	rv := math.Abs(float64(r))
+	if mag > maxFinite {
+		// result is infinity: only allowed when |f| is at least half a step above the largest finite value
+		top := math.Abs(float64(tab[maxFinite]))
+		prev := math.Abs(float64(tab[maxFinite-1]))
+		vrt.Assert(a >= top+(top-prev)/2, prefix+"-overflow-only-beyond-max")
+		return
+	}
+	// neighbours in magnitude order (sign-magnitude codes are ordered like their values)
+	if mag > 0 {
+		lo := math.Abs(float64(tab[mag-1]))
+		mid := (lo + rv) / 2
+		vrt.Assert(a >= mid, prefix+"-nearest-from-below")
+		if a == mid {
+			vrt.Assert(mag&1 == 0, prefix+"-tie-to-even-below")
+		}
+	}
+	if mag < maxFinite {
+		hi := math.Abs(float64(tab[mag+1]))
+		mid := (rv + hi) / 2
+		vrt.Assert(a <= mid, prefix+"-nearest-from-above")
+		if a == mid {
+			vrt.Assert(mag&1 == 0, prefix+"-tie-to-even-above")
+		}
+	} else {
+		top := rv
+		prev := math.Abs(float64(tab[maxFinite-1]))
+		vrt.Assert(a < top+(top-prev)/2 || math.IsInf(a, 1) == false && a <= top+(top-prev)/2, prefix+"-saturation-range")
+	}
+}
+
+// verifF32 builds a float32 bit pattern with a concrete (forked) exponent byte in [lo,hi) and symbolic
+// sign and mantissa: the 2^32 patterns are covered by the union of the exponent ranges below.
+func verifF32(lo, hi int) uint32 {
+	e := uint32(lo + vrt.Choice(hi-lo))
+	return (vrt.U32()&1)<<31 | e<<23 | vrt.U32()&0x7FFFFF
+}
+
+func verifE4M3(lo, hi int) {
+	verifFP8Encode("e4m3", verifF32(lo, hi),
+		func(f float32) uint8 { return uint8(Float32ToFP8E4M3(f)) },
+		func(c uint8) float32 { return FP8E4M3(c).ToFloat32() }, 3)
+}
+
+func verifE5M2(lo, hi int) {
+	verifFP8Encode("e5m2", verifF32(lo, hi),
+		func(f float32) uint8 { return uint8(Float32ToFP8E5M2(f)) },
+		func(c uint8) float32 { return FP8E5M2(c).ToFloat32() }, 2)
+}
+
+// E4M3 encodes biased float32 exponents 117..135 (2^-10 .. 2^8) non-trivially, E5M2 109..143. One harness per
+// exponent so that they run in parallel; the quick tier runs the trivial ranges and the boundary exponents, the
+// thorough tier all of them (together: all 2^32 bit patterns).
+func VerifH_C20_e4m3_encode_lo() { verifE4M3(0, 116) }
+func VerifH_C20_e4m3_encode_hi() { verifE4M3(137, 256) }
+func VerifH_C20_e5m2_encode_lo() { verifE5M2(0, 108) }
+func VerifH_C20_e5m2_encode_hi() { verifE5M2(145, 256) }
+func VerifH_C20_e4m3_encode_x116() { verifE4M3(116, 117) }
+func VerifH_C20_e4m3_encode_x117_thorough() { verifE4M3(117, 118) }
+func VerifH_C20_e4m3_encode_x118() { verifE4M3(118, 119) }
+func VerifH_C20_e4m3_encode_x119_thorough() { verifE4M3(119, 120) }
+func VerifH_C20_e4m3_encode_x120_thorough() { verifE4M3(120, 121) }
+func VerifH_C20_e4m3_encode_x121() { verifE4M3(121, 122) }
+func VerifH_C20_e4m3_encode_x122_thorough() { verifE4M3(122, 123) }
+func VerifH_C20_e4m3_encode_x123_thorough() { verifE4M3(123, 124) }
+func VerifH_C20_e4m3_encode_x124_thorough() { verifE4M3(124, 125) }
+func VerifH_C20_e4m3_encode_x125_thorough() { verifE4M3(125, 126) }
+func VerifH_C20_e4m3_encode_x126_thorough() { verifE4M3(126, 127) }
+func VerifH_C20_e4m3_encode_x127() { verifE4M3(127, 128) }
+func VerifH_C20_e4m3_encode_x128_thorough() { verifE4M3(128, 129) }
+func VerifH_C20_e4m3_encode_x129_thorough() { verifE4M3(129, 130) }
+func VerifH_C20_e4m3_encode_x130_thorough() { verifE4M3(130, 131) }
+func VerifH_C20_e4m3_encode_x131_thorough() { verifE4M3(131, 132) }
+func VerifH_C20_e4m3_encode_x132_thorough() { verifE4M3(132, 133) }
+func VerifH_C20_e4m3_encode_x133_thorough() { verifE4M3(133, 134) }
+func VerifH_C20_e4m3_encode_x134_thorough() { verifE4M3(134, 135) }
+func VerifH_C20_e4m3_encode_x135() { verifE4M3(135, 136) }
+func VerifH_C20_e4m3_encode_x136() { verifE4M3(136, 137) }
+func VerifH_C20_e5m2_encode_x108() { verifE5M2(108, 109) }
+func VerifH_C20_e5m2_encode_x109_thorough() { verifE5M2(109, 110) }
+func VerifH_C20_e5m2_encode_x110() { verifE5M2(110, 111) }
+func VerifH_C20_e5m2_encode_x111_thorough() { verifE5M2(111, 112) }
+func VerifH_C20_e5m2_encode_x112_thorough() { verifE5M2(112, 113) }
+func VerifH_C20_e5m2_encode_x113() { verifE5M2(113, 114) }
+func VerifH_C20_e5m2_encode_x114_thorough() { verifE5M2(114, 115) }
+func VerifH_C20_e5m2_encode_x115_thorough() { verifE5M2(115, 116) }
+func VerifH_C20_e5m2_encode_x116_thorough() { verifE5M2(116, 117) }
+func VerifH_C20_e5m2_encode_x117_thorough() { verifE5M2(117, 118) }
+func VerifH_C20_e5m2_encode_x118_thorough() { verifE5M2(118, 119) }
+func VerifH_C20_e5m2_encode_x119_thorough() { verifE5M2(119, 120) }
+func VerifH_C20_e5m2_encode_x120_thorough() { verifE5M2(120, 121) }
+func VerifH_C20_e5m2_encode_x121_thorough() { verifE5M2(121, 122) }
+func VerifH_C20_e5m2_encode_x122_thorough() { verifE5M2(122, 123) }
+func VerifH_C20_e5m2_encode_x123_thorough() { verifE5M2(123, 124) }
+func VerifH_C20_e5m2_encode_x124_thorough() { verifE5M2(124, 125) }
+func VerifH_C20_e5m2_encode_x125_thorough() { verifE5M2(125, 126) }
+func VerifH_C20_e5m2_encode_x126_thorough() { verifE5M2(126, 127) }
+func VerifH_C20_e5m2_encode_x127() { verifE5M2(127, 128) }
+func VerifH_C20_e5m2_encode_x128_thorough() { verifE5M2(128, 129) }
+func VerifH_C20_e5m2_encode_x129_thorough() { verifE5M2(129, 130) }
+func VerifH_C20_e5m2_encode_x130_thorough() { verifE5M2(130, 131) }
+func VerifH_C20_e5m2_encode_x131_thorough() { verifE5M2(131, 132) }
+func VerifH_C20_e5m2_encode_x132_thorough() { verifE5M2(132, 133) }
+func VerifH_C20_e5m2_encode_x133_thorough() { verifE5M2(133, 134) }
+func VerifH_C20_e5m2_encode_x134_thorough() { verifE5M2(134, 135) }
+func VerifH_C20_e5m2_encode_x135_thorough() { verifE5M2(135, 136) }
+func VerifH_C20_e5m2_encode_x136_thorough() { verifE5M2(136, 137) }
+func VerifH_C20_e5m2_encode_x137_thorough() { verifE5M2(137, 138) }
+func VerifH_C20_e5m2_encode_x138_thorough() { verifE5M2(138, 139) }
+func VerifH_C20_e5m2_encode_x139_thorough() { verifE5M2(139, 140) }
+func VerifH_C20_e5m2_encode_x140_thorough() { verifE5M2(140, 141) }
+func VerifH_C20_e5m2_encode_x141_thorough() { verifE5M2(141, 142) }
+func VerifH_C20_e5m2_encode_x142_thorough() { verifE5M2(142, 143) }
+func VerifH_C20_e5m2_encode_x143() { verifE5M2(143, 144) }
+func VerifH_C20_e5m2_encode_x144() { verifE5M2(144, 145) }
